@@ -30,6 +30,7 @@ class Harness:
     assumptions = ()
     outside = ()
     div_mode = 'fork'
+    logic = None        # e.g. 'QF_BV' to use a specialised z3 solver
     timeout_ms = {'quick': 20000, 'thorough': 60000}
     max_paths = 200000
     unit_wall_s = {'quick': 240, 'thorough': 1500}
@@ -197,7 +198,8 @@ def _unit(args):
             try:
                 core.explore(lambda ctx: h.sym(ctx, cfg), timeout_ms=tmo,
                              max_paths=h.max_paths, div_mode=h.div_mode,
-                             stats=st, wall_s=wall, on_path=on_path)
+                             stats=st, wall_s=wall, on_path=on_path,
+                             logic=h.logic)
             except core.BoundExceeded as e:
                 out['unknown'].append(dict(name='bound-exceeded',
                                            detail=str(e)))
